@@ -14,13 +14,15 @@ import (
 // several slots, USE/IUSE settings, dependency expressions (plain, versioned, slotted, USE
 // dependencies, blockers, any-of / exactly-one / at-most-one groups, USE conditionals, nested
 // groups, cycles), a profile tree (parents, diamonds, symlinked make.profile, "*atom" and
-// "-*atom" lines, repeated atoms) and extra user atoms.
+// "-*atom" lines, repeated atoms) and extra user atoms.  A per-case "chaos" level decides how
+// often an atom is aimed at nothing / a blocker hits / a file is undecodable, so that most runs
+// succeed with a non-trivial closure and a good share must fail.
 
 var cats = []string{"sys-apps", "dev-libs", "app-misc", "virtual", "dev-lang", "net-misc"}
 var names = []string{"alpha", "beta", "gamma", "delta", "eps", "zeta", "eta", "theta", "iota", "kappa"}
 var flags = []string{"ssl", "nls", "X", "static", "python", "doc"}
 var versions = []string{"1.0", "1.2.3", "2.0-r1", "0.9_rc1", "3", "10.1", "1.10", "1.9", "2.4b", "4.0_p2-r3"}
-var slotPool = []string{"0", "1", "2", "3", "3.10", "3.9", "1.0", "10", "stable"}
+var slotPool = []string{"0", "1", "2", "3", "3.10", "3.9", "1.0", "10", "stable", "5", "7"}
 
 type gpkg struct {
 	cat, name, ver, slot, subslot string
@@ -32,27 +34,33 @@ func (p *gpkg) pn() string { return p.cat + "/" + p.name }
 func (p *gpkg) pf() string { return p.name + "-" + p.ver }
 
 type universe struct {
-	pkgs []*gpkg
+	pkgs  []*gpkg
+	chaos int // 0 calm, 1 some trouble, 2 wild
+	deep  bool
 }
 
-func genUniverse(r *rng.R) *universe {
+func (u *universe) trouble(r *rng.R, calm, some, wild int) bool {
+	d := []int{calm, some, wild}[u.chaos]
+	return d > 0 && r.Chance(1, d)
+}
+
+func genUniverse(r *rng.R, n int, multiSlot int) *universe {
 	u := &universe{}
-	n := 2 + r.Heavy(10)
 	taken := map[string]bool{} // pn:slot and cat/pf
 	for len(u.pkgs) < n {
 		var p gpkg
-		if len(u.pkgs) > 0 && r.Chance(1, 4) { // another slot of an existing package
+		if len(u.pkgs) > 0 && r.Chance(multiSlot, 12) { // another slot of an existing package
 			o := u.pkgs[r.Intn(len(u.pkgs))]
 			p.cat, p.name = o.cat, o.name
 		} else {
 			p.cat, p.name = r.Pick(cats), r.Pick(names)
-			if r.Chance(1, 12) && len(u.pkgs) > 0 { // same base name in another category (bare-name ambiguity)
+			if r.Chance(1, 14) && len(u.pkgs) > 0 { // same base name in another category (bare-name ambiguity)
 				p.name = u.pkgs[r.Intn(len(u.pkgs))].name
 			}
 		}
 		p.ver = r.Pick(versions)
 		p.slot = r.Pick(slotPool)
-		if r.Chance(2, 3) {
+		if r.Chance(1, 2) {
 			p.slot = r.Pick(slotPool[:4])
 		}
 		if r.Chance(1, 5) {
@@ -61,7 +69,6 @@ func genUniverse(r *rng.R) *universe {
 		if taken[p.pn()+":"+p.slot] || taken[p.cat+"/"+p.pf()] {
 			continue
 		}
-		// slot keys are compared after normalisation: 1 and 1.0 differ, but 01 vs 1 would collide; the pool avoids that
 		taken[p.pn()+":"+p.slot] = true
 		taken[p.cat+"/"+p.pf()] = true
 		p.use = map[string]bool{}
@@ -78,48 +85,104 @@ func genUniverse(r *rng.R) *universe {
 	return u
 }
 
-// an atom aimed at package t (or at a missing package)
-func genAtom(r *rng.R, u *universe, blockerOK bool, useDepOK bool) string {
-	if r.Chance(1, 14) {
-		return r.Pick(cats) + "/" + r.Pick([]string{"missing", "nosuch", "absent"})
-	}
-	t := u.pkgs[r.Intn(len(u.pkgs))]
+// an atom aimed at an installed package so that it (most likely) matches
+func goodAtom(r *rng.R, u *universe, t *gpkg, useDepOK bool) string {
 	base := t.pn()
 	s := base
-	switch r.Intn(12) {
+	switch r.Intn(14) {
 	case 0:
 		s = ">=" + base + "-" + t.ver
 	case 1:
-		s = "<" + base + "-" + r.Pick(versions)
-	case 2:
 		s = "=" + base + "-" + t.ver
+	case 2:
+		if !strings.Contains(t.ver, "-r") {
+			s = "~" + base + "-" + t.ver
+		}
 	case 3:
-		s = "~" + base + "-" + strings.Split(t.ver, "-r")[0]
-	case 4:
-		s = ">" + base + "-" + r.Pick(versions)
-	case 5:
 		s = "<=" + base + "-" + t.ver
+	case 4:
+		s = ">=" + base + "-0.1"
+	case 5:
+		s = "<" + base + "-99"
 	}
 	switch r.Intn(10) {
 	case 0:
 		s += ":" + t.slot
 	case 1:
-		s += ":" + r.Pick(slotPool)
-	case 2:
 		s += ":="
-	case 3:
+	case 2:
 		s += ":*"
-	case 4:
+	case 3:
 		s += ":" + t.slot + "="
 	}
-	if useDepOK && r.Chance(1, 6) {
+	if useDepOK && r.Chance(1, 7) {
+		f := r.Pick(flags)
+		declared := false
+		for _, x := range t.iuse {
+			if x == f {
+				declared = true
+			}
+		}
+		switch {
+		case declared && t.use[f]:
+			s += "[" + r.Pick([]string{f, f + "(+)", f + "(-)"}) + "]"
+		case declared:
+			s += "[" + r.Pick([]string{"-" + f, "-" + f + "(+)"}) + "]"
+		default:
+			s += "[" + r.Pick([]string{f + "(+)", "-" + f + "(-)"}) + "]"
+		}
+	}
+	return s
+}
+
+// an atom of any shape, possibly aimed at nothing
+func wildAtom(r *rng.R, u *universe, useDepOK bool) string {
+	if r.Chance(1, 3) {
+		return r.Pick(cats) + "/" + r.Pick([]string{"missing", "nosuch", "absent"})
+	}
+	t := u.pkgs[r.Intn(len(u.pkgs))]
+	base := t.pn()
+	s := base
+	switch r.Intn(8) {
+	case 0:
+		s = ">=" + base + "-" + r.Pick(versions)
+	case 1:
+		s = "<" + base + "-" + r.Pick(versions)
+	case 2:
+		s = "=" + base + "-" + r.Pick(versions)
+	case 3:
+		s = "~" + base + "-" + strings.Split(r.Pick(versions), "-r")[0]
+	case 4:
+		s = ">" + base + "-" + t.ver
+	case 5:
+		s = "=" + base + "-" + strings.Split(t.ver, ".")[0] + "*"
+	}
+	switch r.Intn(6) {
+	case 0:
+		s += ":" + r.Pick(slotPool)
+	case 1:
+		s += ":" + r.Pick(slotPool) + "="
+	}
+	if useDepOK && r.Chance(1, 3) {
 		f := r.Pick(flags)
 		s += "[" + r.Pick([]string{f, "-" + f, f + "?", f + "=", "!" + f + "?", "!" + f + "=", f + "(+)", f + "(-)", "-" + f + "(-)"}) + "]"
 	}
-	if blockerOK && r.Chance(1, 12) {
-		s = r.Pick([]string{"!", "!!"}) + s
-	}
 	return s
+}
+
+func genAtom(r *rng.R, u *universe, blockerOK bool, useDepOK bool) string {
+	if u.trouble(r, 0, 25, 6) {
+		return wildAtom(r, u, useDepOK)
+	}
+	if blockerOK && r.Chance(1, 10) {
+		// a blocker: harmless in calm cases (aimed at nothing installed), a hit otherwise
+		if u.trouble(r, 0, 4, 2) {
+			return r.Pick([]string{"!", "!!"}) + goodAtom(r, u, u.pkgs[r.Intn(len(u.pkgs))], false)
+		}
+		t := u.pkgs[r.Intn(len(u.pkgs))]
+		return r.Pick([]string{"!", "!!"}) + r.Pick([]string{"<" + t.pn() + "-0.0.1", r.Pick(cats) + "/obsolete", ">" + t.pn() + "-999"})
+	}
+	return goodAtom(r, u, u.pkgs[r.Intn(len(u.pkgs))], useDepOK)
 }
 
 func genDepItems(r *rng.R, u *universe, depth int, n int, inGroup bool) []string {
@@ -129,26 +192,33 @@ func genDepItems(r *rng.R, u *universe, depth int, n int, inGroup bool) []string
 		if depth <= 0 {
 			k = 0
 		}
+		if inGroup && !r.Chance(1, 7) { // alternatives are plain atoms, mostly
+			k = 0
+		}
 		sub := func(lo, hi int, grp bool) string {
 			return strings.Join(genDepItems(r, u, depth-1, r.Range(lo, hi), grp), " ")
 		}
 		switch {
-		case k < 66:
+		case k < 64:
 			out = append(out, genAtom(r, u, true, true))
 		case k < 78:
 			out = append(out, "|| ( "+sub(1, 3, true)+" )")
-		case k < 86:
+		case k < 88:
 			out = append(out, r.Pick(flags)+"? ( "+sub(1, 3, false)+" )")
-		case k < 90:
+		case k < 92:
 			out = append(out, "!"+r.Pick(flags)+"? ( "+sub(1, 2, false)+" )")
-		case k < 93:
-			out = append(out, "( "+sub(0, 3, false)+" )")
-		case k < 96:
+		case k < 95:
+			out = append(out, "( "+sub(1, 3, false)+" )")
+		case k < 97:
 			out = append(out, "^^ ( "+sub(1, 3, true)+" )")
-		case k < 98:
+		case k < 99:
 			out = append(out, "?? ( "+sub(1, 3, true)+" )")
 		default:
-			out = append(out, "|| ( )")
+			if u.chaos > 0 {
+				out = append(out, r.Pick([]string{"|| ( )", "( )"}))
+			} else {
+				out = append(out, genAtom(r, u, true, true))
+			}
 		}
 	}
 	return out
@@ -157,7 +227,7 @@ func genDepItems(r *rng.R, u *universe, depth int, n int, inGroup bool) []string
 func genDepString(r *rng.R, u *universe) string {
 	n := r.Heavy(4)
 	s := strings.Join(genDepItems(r, u, 3, n, false), " ")
-	if r.Chance(1, 40) { // an undecodable file (unbalanced or unknown token): the run has to fail, not crash
+	if u.trouble(r, 0, 60, 12) { // an undecodable file (unknown token): the run has to fail, not crash
 		s += r.Pick([]string{" [bad", " a/b/c/?", " =x"})
 	}
 	if r.Chance(1, 3) {
@@ -195,9 +265,10 @@ func (p *gpkg) toIn(r *rng.R, u *universe) PkgIn {
 	case 0: // only IUSE
 		in.HasIuse, in.Iuse = true, B(strings.Join(iuse, " ")+"\n")
 	case 1: // neither file: no declared flags
-		if !r.Chance(1, 8) { // (rarely keep USE words that are not declared: outside wf)
+		if !r.Chance(1, 30) { // (rarely keep USE words that are not declared: outside wf)
 			use = nil
 		}
+		p.iuse, p.use = nil, map[string]bool{}
 	default:
 		in.HasIuseEff, in.IuseEff = true, B(strings.Join(p.iuse, " ")+"\n")
 		if r.Chance(1, 2) {
@@ -207,14 +278,17 @@ func (p *gpkg) toIn(r *rng.R, u *universe) PkgIn {
 	if len(use) > 0 || r.Chance(1, 2) {
 		in.HasUse, in.Use = true, B(strings.Join(use, " ")+"\n")
 	}
+	return in
+}
+
+func (u *universe) fillDeps(r *rng.R, in *PkgIn) {
 	for k := 0; k < 4; k++ {
-		pr := []int{3, 3, 1, 4}[k] // RDEPEND most often present
-		if r.Chance(pr-1+1, pr+1) || k == 2 {
+		pr := []int{2, 2, 1, 3}[k] // RDEPEND most often present
+		if k == 2 || r.Chance(1, pr) {
 			in.HasDep[k] = true
 			in.Dep[k] = B(genDepString(r, u))
 		}
 	}
-	return in
 }
 
 // profile tree
@@ -241,8 +315,8 @@ func genProfile(r *rng.R, u *universe, in *Input) {
 		n := ProfNode{Path: B(d)}
 		if i == nprof-1 || r.Chance(3, 4) {
 			n.HasPackages = true
-			for k := r.Heavy(4); k >= 0; k-- {
-				switch r.Intn(12) {
+			for k := r.Heavy(3); k >= 0; k-- {
+				switch r.Intn(14) {
 				case 0:
 					n.Packages = append(n.Packages, B("# comment"))
 				case 1:
@@ -250,21 +324,21 @@ func genProfile(r *rng.R, u *universe, in *Input) {
 				case 2:
 					n.Packages = append(n.Packages, B(u.pkgs[r.Intn(len(u.pkgs))].pn())) // non-system line
 				case 3:
-					if len(allAtoms) > 0 && r.Chance(1, 2) {
+					if len(allAtoms) > 0 && r.Chance(2, 3) {
 						n.Packages = append(n.Packages, B("-*"+allAtoms[r.Intn(len(allAtoms))]))
 					} else {
 						n.Packages = append(n.Packages, B("-*"+u.pkgs[r.Intn(len(u.pkgs))].pn()))
 					}
-				case 4:
+				case 4, 5:
 					if len(allAtoms) > 0 { // an atom listed twice
 						n.Packages = append(n.Packages, B("*"+allAtoms[r.Intn(len(allAtoms))]))
 						break
 					}
 					fallthrough
 				default:
-					a := genAtom(r, u, false, false)
-					if r.Chance(4, 5) {
-						a = u.pkgs[r.Intn(len(u.pkgs))].pn()
+					a := u.pkgs[r.Intn(len(u.pkgs))].pn()
+					if r.Chance(1, 4) {
+						a = genAtom(r, u, false, false)
 					}
 					allAtoms = append(allAtoms, a)
 					n.Packages = append(n.Packages, B("*"+a))
@@ -274,7 +348,7 @@ func genProfile(r *rng.R, u *universe, in *Input) {
 		if i < nprof-1 {
 			n.HasParent = true
 			np := 1
-			if r.Chance(1, 3) {
+			if r.Chance(1, 2) {
 				np = 2
 			}
 			seen := map[int]bool{}
@@ -305,12 +379,22 @@ func genProfile(r *rng.R, u *universe, in *Input) {
 		if r.Chance(1, 2) {
 			n.HasPackages = true
 			n.Packages = []B{B("*" + u.pkgs[r.Intn(len(u.pkgs))].pn())}
+			if r.Chance(1, 3) && len(allAtoms) > 0 {
+				n.Packages = append(n.Packages, B("-*"+allAtoms[r.Intn(len(allAtoms))]))
+			}
 		}
 		in.Prof = append(in.Prof, n)
 	default:
 		in.ProfileArg = B(dirs[0])
-		if r.Chance(1, 10) {
+		if u.trouble(r, 0, 10, 6) {
 			in.ProfileArg = B("repo/profiles/none")
+		}
+	}
+	if u.trouble(r, 0, 20, 8) { // a parent that does not exist
+		k := r.Intn(len(in.Prof))
+		if !in.Prof[k].Link {
+			in.Prof[k].HasParent = true
+			in.Prof[k].Parent = append(in.Prof[k].Parent, B("../gone"))
 		}
 	}
 }
@@ -334,20 +418,60 @@ func relPath(from, to string) string {
 	return strings.Join(parts, "/")
 }
 
-func genInput(r *rng.R) Input {
+func shuffleOrder(r *rng.R, n int) []int {
+	o := make([]int, n)
+	for i := range o {
+		o[i] = i
+	}
+	for j := n - 1; j > 0; j-- {
+		m := r.Intn(j + 1)
+		o[j], o[m] = o[m], o[j]
+	}
+	return o
+}
+
+func genInput(r *rng.R, scenario int) Input {
 	var in Input
-	u := genUniverse(r)
+	var u *universe
+	chaos := 0
+	switch k := r.Intn(20); {
+	case k < 11:
+		chaos = 0
+	case k < 17:
+		chaos = 1
+	default:
+		chaos = 2
+	}
+	switch scenario {
+	case 1: // several slots of few names, requested by name: the order of the listing and of ^^ choices
+		u = genUniverse(r, 3+r.Intn(6), 9)
+	case 2: // a dependency chain / cycle through every package
+		u = genUniverse(r, 3+r.Intn(8), 1)
+		u.deep = true
+	default:
+		u = genUniverse(r, 2+r.Heavy(10), 3)
+	}
+	u.chaos = chaos
+	in.NoBdeps = r.Chance(1, 4)
 	for _, p := range u.pkgs {
 		in.Pkgs = append(in.Pkgs, p.toIn(r, u))
 	}
-	in.Order = make([]int, len(in.Pkgs))
-	for i := range in.Order {
-		in.Order[i] = i
+	for i := range in.Pkgs {
+		u.fillDeps(r, &in.Pkgs[i])
 	}
-	for j := len(in.Order) - 1; j > 0; j-- {
-		m := r.Intn(j + 1)
-		in.Order[j], in.Order[m] = in.Order[m], in.Order[j]
+	if u.deep { // p[i] needs p[i+1], the last one needs the first
+		for i := range in.Pkgs {
+			j := (i + 1) % len(in.Pkgs)
+			k := r.Pick([]string{"2", "2", "3", "1"})
+			kk := int(k[0] - '0')
+			if in.NoBdeps && kk < 2 {
+				kk = 2
+			}
+			in.Pkgs[i].HasDep[kk] = true
+			in.Pkgs[i].Dep[kk] = B(strings.TrimSpace(string(in.Pkgs[i].Dep[kk]) + " " + u.pkgs[j].pn()))
+		}
 	}
+	in.Order = shuffleOrder(r, len(in.Pkgs))
 	genProfile(r, u, &in)
 	if r.Chance(1, 3) {
 		for k := 1 + r.Intn(2); k > 0; k-- {
@@ -355,10 +479,15 @@ func genInput(r *rng.R) Input {
 			if r.Chance(1, 4) { // bare name
 				a = u.pkgs[r.Intn(len(u.pkgs))].name
 			}
+			if r.Chance(1, 8) { // a requested blocker of something installed
+				a = "!" + u.pkgs[r.Intn(len(u.pkgs))].pn()
+			}
 			in.Atoms = append(in.Atoms, B(a))
 		}
 	}
-	in.NoBdeps = r.Chance(1, 4)
+	if scenario == 1 { // ask for every slot of one name
+		in.Atoms = append(in.Atoms, B(u.pkgs[0].pn()))
+	}
 	return in
 }
 
@@ -367,10 +496,17 @@ func Generate(r *rng.R, tier string, n int, emit func(*common.Case)) {
 		cr := r.Split()
 		sub := cr.U64()
 		cr = rng.New(sub)
-		in := genInput(cr)
+		scenario := 0
+		switch i % 6 {
+		case 1:
+			scenario = 1
+		case 3:
+			scenario = 2
+		}
+		in := genInput(cr, scenario)
 		c := Run(in)
 		c.Sub = sub
-		c.Classes = append(c.Classes, fmt.Sprintf("stream=%s", "structured"))
+		c.Classes = append(c.Classes, fmt.Sprintf("scenario=%d", scenario))
 		emit(c)
 	}
 }
